@@ -34,3 +34,14 @@ func (s *SessionManager) VerifCloseBridge(tunnelID string) bool {
 func (s *SessionManager) VerifLookupTunnelRouting(ctx context.Context, tunnelID string) (*TunnelWaitingState, error) {
 	return s.lookupTunnelRouting(ctx, tunnelID)
 }
+
+// VerifBridgeIDs lists the tunnel ids that currently have a bridge on this node.
+func (s *SessionManager) VerifBridgeIDs() []string {
+	s.bridgeLock.RLock()
+	defer s.bridgeLock.RUnlock()
+	ids := make([]string, 0, len(s.tunnelBridges))
+	for id := range s.tunnelBridges {
+		ids = append(ids, id)
+	}
+	return ids
+}
